@@ -380,6 +380,19 @@ class FakeChild:
 _PATCHED = {}
 
 
+def _container_sizes(obj) -> tuple:
+    """How much every queue / buffer of an object holds, whatever the attributes are called (digest of pending work)."""
+    out = []
+    for name, v in sorted(vars(obj).items()):
+        if isinstance(v, (list, collections.deque, set, frozenset, bytes, bytearray, str)):
+            out.append((name, len(v)))
+        elif isinstance(v, dict):
+            inner = tuple(sorted((str(k), len(x) if hasattr(x, '__len__') else repr(x)[:40]) for k, x in v.items()
+                                 if isinstance(x, (list, collections.deque, set, bytes, bytearray, str, int, bool, tuple, dict))))
+            out.append((name, len(v), inner))
+    return tuple(out)
+
+
 class World:
     """One execution: a fresh reactor on a fresh loop.  Always use as a context manager."""
 
@@ -588,9 +601,9 @@ class World:
         procs = self.reactor.processes if hasattr(self.reactor, 'processes') else None
         pq = ()
         if procs is not None:
-            pq = (len(procs._command_queue), tuple(sorted((k, len(v)) for k, v in procs._write_queue.items())), tuple(sorted(procs._buffer.items())))
+            pq = _container_sizes(procs)
         out = tuple(len(c.read_output()) for c in self.children.values())
-        return (tuple(peers), socks, timers, pq, out, len(self.reactor.asynchronous._async), len(self.events), self.main.done())
+        return (tuple(peers), socks, timers, pq, out, _container_sizes(self.reactor.asynchronous), len(self.events), self.main.done())
 
     def settle(self, max_rounds: int = 4000, calm: int = 8) -> int:
         """Run loop rounds with the clock frozen until nothing observable changes."""
